@@ -3377,7 +3377,7 @@ class AttrSetMonad(SetMixin, Monad):
             sqlquery = SqlQuery(translator, translator.sqlquery)
         monad.make_tableref(sqlquery)
         sqlquery.expr_list = monad.make_expr_list()
-        if not attr.reverse and not attr.is_required:
+        if not attr.is_collection and not attr.is_required:
             sqlquery.conditions.extend([ 'IS_NOT_NULL', expr ] for expr in sqlquery.expr_list)
         if sqlquery is not translator.sqlquery and extract_outer_conditions:
             outer_cond = sqlquery.from_ast[1].pop()
